@@ -28,7 +28,7 @@ from vlib.core import SubCheck, Violation
 
 PROPERTY = "C18"
 ASSUMPTIONS = [
-    "texts are valid Unicode (no lone surrogates: 'P:<text>' is UTF-8 encoded by the parser)",
+    "structured texts are valid Unicode; the unicode_text sub-check also feeds str values with lone surrogates",
     "oracles/refenc.py + oracles/refaddr.py reference decoders for Base58Check, Bech32(m), WIF, BIP32 blobs, SEC",
     "equality of parsed objects = same class, same secret exponent / public pair / compression flag (keys), same 74-byte "
     "serialisation (extended keys), same script bytes (contracts)",
@@ -40,7 +40,7 @@ UNEXPLORED = ["Base58 (groestl checksum) decoding on GRS, TGRS, GRSRT: groestlco
               "is refused there and WIF / extended-key / p2pkh / p2sh texts cannot be produced",
               "parse.address / hierarchical_key / private_key / public_key on GRS networks are replaced by constant-None parsers "
               "by the symbol files when the module is missing",
-              "lone surrogate code points in text", "Atheris fuzz target of the DESIGN (not built)", "libsecp256k1 backend"]
+              "Atheris fuzz target of the DESIGN (not built)", "libsecp256k1 backend"]
 
 PYCOIN_DIR = os.path.dirname(os.path.abspath(pycoin.__file__)) + os.sep
 N = refaddr.N
@@ -374,7 +374,10 @@ def nets():
 
 def s_unicode():
     soup = st.lists(st.sampled_from(list("0123456789abcdefABCDEFxX:/,-_+ HPE[]'\n\t.") + ["even", "odd", "OP_", "SEC", "0x"]), max_size=30).map("".join)
-    return st.builds(lambda c, t: {"net": c, "text": t}, nets(), st.one_of(st.text(), st.text(), st.text(max_size=5), soup))
+    # str values that are not valid Unicode text (lone surrogates), bare and behind the colon / numeric prefixes
+    odd = st.builds(lambda p, t: p + t, st.sampled_from(["", "P:", "H:", "E:", "BTCSEC:", "1/", "0x", "P:abc"]),
+                    st.text(alphabet=st.characters(), max_size=6))
+    return st.builds(lambda c, t: {"net": c, "text": t}, nets(), st.one_of(st.text(), st.text(), st.text(max_size=5), soup, odd))
 
 
 SECRETS = [1, 2, 3, 0x1234567890abcdef, N - 1, N - 2, (N - 1) // 2, 2**255 % N, 2**128 + 1, 0xdeadbeef * 2**200 + 5]
